@@ -182,6 +182,45 @@ func checkLiveness(nw *Network, res *CaseResult, cycles int, idle bool, bound in
 			live = append(live, n)
 		}
 	}
+	// premise of C06: more than two thirds of the current validators keep
+	// exchanging syncs. Nodes that suspended themselves during the prefix (no
+	// quorum for too long: designed behaviour, C17), that left, or that cannot
+	// follow any more do not; if the rest is not a supermajority the property
+	// says nothing about this history.
+	if len(live) > 0 {
+		vals := live[0].Core.Validators()
+		for _, n := range live {
+			if n.Core.Validators().Len() > vals.Len() {
+				vals = n.Core.Validators()
+			}
+		}
+		lv := 0
+		for _, n := range live {
+			if _, ok := vals.ByID[n.ID]; ok {
+				lv++
+			}
+		}
+		if 3*lv <= 2*vals.Len() {
+			res.count("liveness_premise_not_met_live_validators_not_a_supermajority", 1)
+			res.Digests = nil
+			return
+		}
+	} else {
+		res.count("liveness_premise_not_met_live_validators_not_a_supermajority", 1)
+		res.Digests = nil
+		return
+	}
+	pendingJoins := 0
+	for _, pj := range nw.joinOf {
+		if pj.host == nil {
+			continue
+		}
+		for _, n := range live {
+			if n == pj.host {
+				pendingJoins++
+			}
+		}
+	}
 	if !idle {
 		busy := []int{}
 		for _, n := range live {
@@ -189,7 +228,7 @@ func checkLiveness(nw *Network, res *CaseResult, cycles int, idle bool, bound in
 				busy = append(busy, n.Idx)
 			}
 		}
-		if len(busy) == 0 && len(nw.joinOf) == 0 {
+		if len(busy) == 0 && pendingJoins == 0 {
 			stuckOnly := true
 			for _, n := range nw.upReal() {
 				st := n.Node.GetState().String()
@@ -211,7 +250,7 @@ func checkLiveness(nw *Network, res *CaseResult, cycles int, idle bool, bound in
 		}
 		nw.violate("C06", "C06:not-idle-within-bound",
 			fmt.Sprintf("after %d fair all-pairs cycles among the live validators, nodes %v are still busy (or a join / fast-forward is still pending)", bound, busy),
-			map[string]interface{}{"busy": busy, "pending_joins": len(nw.joinOf), "diag": progressDiag(nw, nil)})
+			map[string]interface{}{"busy": busy, "pending_joins_at_live_hosts": pendingJoins, "diag": progressDiag(nw, nil)})
 		return
 	}
 	if len(live) == 0 {
